@@ -192,7 +192,16 @@ where
                         {
                             if old_status != new_status {
                                 if let Some(ref callback) = on_health_change {
-                                    callback(&ctx_clone.name, old_status, new_status);
+                                    // Observers only observe: a panic here would skip the
+                                    // triggers, and its payload (dropped with the JoinError)
+                                    // could take the whole check loop down
+                                    if let Err(payload) =
+                                        std::panic::catch_unwind(std::panic::AssertUnwindSafe(
+                                            || callback(&ctx_clone.name, old_status, new_status),
+                                        ))
+                                    {
+                                        drop_panic_payload(payload);
+                                    }
                                 }
                             }
                         }
